@@ -416,6 +416,17 @@ Fixpoint run_view (cfg : config) (st : sstate) (l : list (netmsg * env))
         :: (if existsb is_stop eff then [] else run_view cfg st' r)
   end.
 
+(* handler-level view (state components after each handled message) *)
+Fixpoint run_unit (cfg : config) (st : sstate) (l : list (netmsg * env))
+  : list (bool * bool * list N * list N * list effect) :=
+  match l with
+  | [] => []
+  | (m, e) :: r =>
+      let '(st', eff) := handle cfg st m e in
+      (a_is_ok (s_auth st'), a_is_close (s_auth st'), s_adv st', s_remote st', eff)
+        :: (if existsb is_stop eff then [] else run_unit cfg st' r)
+  end.
+
 End Gate.
 
 (* ---------- the property as an executable oracle ---------- *)
